@@ -4,6 +4,16 @@ HERE = os.path.dirname(os.path.dirname(os.path.abspath(__file__)))
 BASE = json.load(open("/root/.vp/BASELINE.json"))["cmd"]
 
 CHECKS = {
+ "C12": dict(
+   technique="bounded exhaustive enumeration of stored-row tuples x compositions x arm-change variants x cluster/tree settings x policies; cell membership taken from the fitted scikit-learn object, expectations compared with the policy re-trained on exactly the cell's rows",
+   text="Every tuple of up to n points of a 5-point grid is stored through every composition into fit + partial_fit* (with add_arm / remove_arm variants) under KMeans(2), MiniBatchKMeans(2), KMeans(3) and three tree parameter sets; for every grid query the expectations must be those of the learning policy trained from scratch on exactly the rows sharing the query's cluster / the arm's rewards sharing the query's leaf.",
+   note="scikit-learn trusted for labels_/predict/apply; queries on centroid ties skipped and counted; n<=4 (quick, with reductions stated in the evidence) / n<=5 (thorough)",
+   ref="DESIGN.md section 7 (C12)"),
+ "C20": dict(
+   technique="exhaustive enumeration of relabellings x combinations, of all n! row permutations of every training subset, and of reward shift/scale constants over all short histories; metamorphic oracles",
+   text="(a) a scenario covering training, arm changes and predictions is run under four relabellings (type and sort order changed) for every combination and must produce the renamed outputs with the same draws; (b) every permutation of every subset of up to 5 fixed rows gives the same expectations for context-free, linear and Radius/LSHNearest bandits; (c) reward shift / scale laws hold on every row sequence (n<=3) and composition in which every arm is observed.",
+   note="bit-exact on the exactly summable alphabet, 1e-9 for linear policies; KNearest excluded from (b) as the statement allows",
+   ref="DESIGN.md section 7 (C20)"),
  "C13": dict(
    technique="explicit-state BFS over the real bandit from every (policy, feature assignment, trained subset) initial state over {warm_start x 5 quantiles, partial_fit, fit, add_arm, remove_arm}; status-machine reference model in lock-step; per-transition rule oracle",
    text="For each of eight policies, all 125 assignments of five feature vectors (zero and duplicates included) to three arms and all six proper trained subsets, every operation sequence up to the depth bound is executed; a three-valued status machine must predict cold_arms in every state and each warm_start is judged against the documented rule (only cold arms change, exact copy of a closest trained arm, within the quantile threshold, idempotent, monotone in the quantile).",
